@@ -92,7 +92,9 @@ namespace chaiscript {
       }
 
       inline Boxed_Value clone_if_necessary(Boxed_Value incoming, std::atomic_uint_fast32_t &t_loc, const chaiscript::detail::Dispatch_State &t_ss) {
-        if (!incoming.is_return_value()) {
+        // a return value may only be taken over without a copy while nothing else names it: a temporary bound to a
+        // function parameter still carries the flag, and `var v = p` must not make v an alias of p
+        if (!incoming.is_return_value() || !incoming.is_unique()) {
           if (incoming.get_type_info().is_arithmetic()) {
             return Boxed_Number::clone(incoming);
           } else if (incoming.get_type_info().bare_equal_type_info(typeid(bool))) {
